@@ -221,15 +221,117 @@ class Inliner:
         return None
 
 
+def _binds(p, out):
+    k = p.get("k")
+    if k == "Bind":
+        out.append(p)
+        if "sub" in p:
+            _binds(p["sub"], out)
+    elif k in ("Tuple", "TupleStruct", "Or", "Slice"):
+        for q in p.get("subs", []):
+            _binds(q, out)
+    elif k == "Struct":
+        for f in p.get("fields", []):
+            _binds(f["pat"], out)
+    elif k in ("Ref", "Deref", "Box"):
+        if "sub" in p:
+            _binds(p["sub"], out)
+    return out
+
+
+def disambiguate(fn):
+    """Shadowing: a binding introduced while another binding of the same name is in scope gets the name `<name>__s<k>` (and so
+    do its uses). Normal forms print locals by name; without this `let mut k = ..` inside a block guarded on an outer `k` would
+    be indistinguishable from it. Bindings in disjoint scopes keep their names. Returns the number of renamed bindings."""
+    root = fn["hir_raw"]
+    rename = {}
+    count = {}
+
+    def bind(pat, env):
+        for b in _binds(pat, []):
+            nm = b["name"]
+            sp = b.get("sp")
+            if nm == "self" or (sp and sp[3]):
+                env[nm] = b["id"]
+                continue
+            if nm in env and env[nm] != b["id"]:
+                count[nm] = count.get(nm, 1) + 1
+                rename[b["id"]] = "%s__s%d" % (nm, count[nm])
+            env[nm] = b["id"]
+
+    def visit(n, env):
+        k = n.get("k")
+        if k == "Block":
+            e2 = dict(env)
+            for st in n["stmts"]:
+                if st.get("k") == "Let":
+                    if "init" in st:
+                        visit(st["init"], e2)
+                    if isinstance(st.get("else"), dict):
+                        visit(st["else"], e2)
+                    bind(st["pat"], e2)
+                else:
+                    visit(st, e2)
+            if "expr" in n:
+                visit(n["expr"], e2)
+        elif k == "Match":
+            visit(n["e"], env)
+            for a in n["arms"]:
+                e2 = dict(env)
+                bind(a["pat"], e2)
+                if isinstance(a.get("guard"), dict):
+                    visit(a["guard"], e2)
+                visit(a["body"], e2)
+        elif k == "Closure":
+            e2 = dict(env)
+            for p_ in n.get("params", []):
+                bind(p_, e2)
+            visit(n["body"], e2)
+        elif k == "Let":
+            if "init" in n:
+                visit(n["init"], env)
+            bind(n["pat"], env)
+        else:
+            for c in hirq.children(n):
+                visit(c, env)
+
+    env0 = {}
+    for p_ in fn.get("params", []):
+        for b in _binds(p_["pat"], []):
+            env0[b["name"]] = b["id"]
+    visit(root, env0)
+    if not rename:
+        return 0
+    stack = [root]
+    while stack:
+        x = stack.pop()
+        if isinstance(x, dict):
+            if x.get("k") == "Bind" and x.get("id") in rename:
+                x["name"] = rename[x["id"]]
+            r = x.get("res")
+            if isinstance(r, dict) and r.get("local") in rename:
+                r["name"] = rename[r["local"]]
+            for kk, v in x.items():
+                if kk in ("sp", "res"):
+                    continue
+                if isinstance(v, (dict, list)):
+                    stack.append(v)
+        elif isinstance(x, list):
+            stack.extend(x)
+    return len(rename)
+
+
 def prepare(facts):
     """rewrite fn["hir"] of every function in place (the extractor's tree stays in fn["hir_raw"])"""
     if getattr(facts, "inliner", None) is not None:
         return facts.inliner
     inl = Inliner(facts)
     facts.inliner = inl
+    inl.renamed = 0
     for f in facts.fns.values():
         if "hir" in f:
             f["hir_raw"] = f["hir"]
+            inl.renamed += disambiguate(f)
     if inl.inv is None:
         return inl
     for fid, f in facts.fns.items():
